@@ -101,6 +101,20 @@ def header(x, p):
     lx2 = lexer.Lexer(version=8)
     lx2.process_lines([out])
     lout = lua_of(lx2.tokens)
+    # independent statement of what `stats` must report: the first token if
+    # it is a comment (title), the third token if it is a comment (byline)
+    exp_title = toks[0].code[2:].strip() if toks and isinstance(
+        toks[0], lexer.TokComment) else None
+    exp_byline = toks[2].code[2:].strip() if len(toks) >= 3 and isinstance(
+        toks[2], lexer.TokComment) else None
+    got_title = lin.get_title()
+    got_byline = lin.get_byline()
+    x.check('get_title reports the leading comment',
+            (got_title is None) == (exp_title is None) and
+            (exp_title is None or got_title == exp_title))
+    x.check('get_byline reports the comment in third position',
+            (got_byline is None) == (exp_byline is None) and
+            (exp_byline is None or got_byline == exp_byline))
     tin = lin.get_title()
     if tin is not None:
         x.check('title survives minification', lout.get_title() == tin)
